@@ -62,15 +62,17 @@ def junk(n, salt=0):
 # ---- transformations: bytes -> list of (tag, bytes) ---------------------------------------------------------------------------------
 
 def au_variants(b):
-    if b[:4] != b".snd" or len(b) < 24:
+    if b[:4] not in (b".snd", b"dns.") or len(b) < 24:
         return []
-    off = int.from_bytes(b[4:8], "big")
+    bo = "big" if b[:4] == b".snd" else "little"
+    w32 = lambda v: int(v).to_bytes(4, bo)
+    off = int.from_bytes(b[4:8], bo)
     out = []
     for k in (4, 40, 1000, 20000):
-        hdr = b[:4] + be32(off + k) + b[8:off]
+        hdr = b[:4] + w32(off + k) + b[8:off]
         out.append(("annotation%d" % k, hdr + junk(k, k) + b[off:]))
     k = 64
-    out.append(("annotation64-unknown-size", b[:4] + be32(off + k) + be32(0xFFFFFFFF) + b[12:off] + junk(k) + b[off:]))
+    out.append(("annotation64-unknown-size", b[:4] + w32(off + k) + w32(0xFFFFFFFF) + b[12:off] + junk(k) + b[off:]))
     return out
 
 
